@@ -55,6 +55,7 @@ func nsAlphabet() []fsx.Op {
 		fsx.Op{K: "SETATTR", H: "root/a", Size: 0},
 		fsx.Op{K: "SETATTR", H: "root/a", Size: 100},
 		fsx.Op{K: "SETATTR", H: "root/a", Size: 5000},
+		fsx.Op{K: "SETATTR", H: "root/a", Size: 4500}, // together with 5000: shrink and growth inside one block
 		fsx.Op{K: "SETATTR", H: "root/a", NoSize: true, Mtime: 12345, Atime: 678},
 		fsx.Op{K: "RESTART"},
 		fsx.Op{K: "WRITE", H: "dead:root/a", Off: 0, Cnt: 10, Pat: 0x44, Stable: 2},
